@@ -227,6 +227,10 @@ SNIPPETS = {
     "content_and_replace": '<i tal:content="a" tal:replace="b">a</i>',
     "case_without_switch": '<i tal:case="1">a</i>',
     "fill_without_use": '<i metal:fill-slot="x">a</i>',
+    "fill_after_extend": '<b metal:extend-macro="m">e</b>'
+                         '<i metal:fill-slot="x">a</i>',
+    "fill_after_use": '<b metal:use-macro="m">e</b>'
+                      '<i metal:fill-slot="x">a</i>',
     "macro_and_fill": '<div metal:use-macro="m"><i metal:define-macro="n" '
                       'metal:fill-slot="s">a</i></div>',
     "bad_interpolation": '<i meta:interpolation="maybe">a</i>',
